@@ -1,9 +1,11 @@
 package c05
 
 import (
+	"context"
 	"fmt"
 	"math"
 	"strings"
+	"time"
 
 	"github.com/mattn/anko/parser"
 	"github.com/mattn/anko/vm"
@@ -228,10 +230,19 @@ func oracleAgain(c AgainCase, o *h.Obs) *h.Fail {
 			item = "af()"
 		}
 		sb.WriteString("ar = []\n")
-		fmt.Fprintf(&sb, "for ai = 0; ai < %d; ai++ {\n try {\n  ar += [[%s]]\n } catch ae {\n  ar += [\"ERR\"]\n }\n}\nar", c.N, item)
+		// the loop runs over a list literal: how often it goes round does not hang on the arithmetic under test
+		rounds := strings.TrimSuffix(strings.Repeat("\"r\", ", c.N), ", ")
+		fmt.Fprintf(&sb, "for ai in [%s] {\n try {\n  ar += [[%s]]\n } catch ae {\n  ar += [\"ERR\"]\n }\n}\nar", rounds, item)
 		src := sb.String()
 		o.Key = src
-		got, err := ank.Exec(newEnv(), src)
+		ctx, cancel := context.WithTimeout(context.Background(), 5*time.Second)
+		got, err := ank.ExecCtx(ctx, newEnv(), src)
+		timedOut := ctx.Err() != nil
+		cancel()
+		if timedOut {
+			o.Excluded = "again: did not finish within 5 s (not judged)"
+			return nil
+		}
 		if hp, ok := ank.IsHostPanic(err); ok {
 			return h.Failf("C05|host-panic|"+ank.NormPanic(hp.Value), "source:\n%s\nescaped panic: %v", src, hp.Value)
 		}
